@@ -104,10 +104,11 @@ impl SymbolsExportsModule {
         }
     }
     pub fn set_default_export(&mut self, export: Rc<SymbolExportDefault>) {
-        if self.export_default.is_some() {
-            panic!("Default export already set");
+        // A module with more than one default export is rejected by TypeScript itself.
+        // Keep the first one instead of aborting the whole build (and the watch process).
+        if self.export_default.is_none() {
+            self.export_default = Some(export);
         }
-        self.export_default = Some(export);
     }
 
     pub fn insert_value(&mut self, name: String, export: Rc<SymbolExport>) {
